@@ -183,56 +183,36 @@ def run(prog, ctx):
             res.undecided += 1
         else:
             res.violate("C18.K", "C18.K|aux|check", "an insertion into the aux map can skip the growth check", ins.id)
-    # t-digest buffer
+    # t-digest buffer: capacity field found by its initialiser, fold trigger evaluated over (buffer length, capacity)
+    capf, capv = C.tdigest_capacity_field(prog)
+    n_k += 1
+    res.tri(capv, "C18.K", "C18.K|tdigest|capacity", "the t-digest centroid capacity (%s) is not initialised to 2k + (30 if k < 30 else 10)" % capf)
     tu = C.pub_fn(prog, "tdigest::sketch::TDigestMut", "update")
-    if tu is not None:
+    if tu is not None and capf and capv:
         s = Sym(prog, tu)
         n_k += 1
-        res.obligations += 2
         pushes = [b for b, st in tu.calls() if (st.get("callee") or "").endswith("::push")]
-        comp = [(b, st) for b, st in tu.calls() if (st.get("callee") or "").endswith("::compress")]
-        okc = False
-        for b, st in comp:
-            for x in s.cmp_facts_at(b):
-                if x[0] == "Eq" and len(x) == 3 and "len(self.buffer)" in show(x[1]) + show(x[2]) and "centroids_capacity" in show(x[1]) + show(x[2]) and 4 in C.consts_in(("t", x[1], x[2])):
-                    okc = True
-        # the fullness test precedes every push
-        sw = [b.idx for b in tu.blocks if not b.cleanup and b.term[0] == "switch" and "len(self.buffer)" in show(s.operand(b.term[1]))]
-        okp = bool(pushes) and bool(sw) and all(any(tu.dominates(w, p) for w in sw) for p in pushes)
-        if okc:
-            res.discharged += 1
-        elif not sw:
-            res.undecided += 1
-        else:
-            res.violate("C18.K", "C18.K|tdigest|compress", "TDigestMut::update does not compress exactly when the buffer holds 4 * centroids_capacity values", tu.id)
-        if okp:
-            res.discharged += 1
-        elif not sw or not pushes:
-            res.undecided += 1
-        else:
-            res.violate("C18.K", "C18.K|tdigest|push", "a value can be pushed to the t-digest buffer without the fullness check", tu.id)
-    tm = C.fn_one(prog, "tdigest::sketch::TDigestMut", "make")
-    if tm is not None:
-        s = Sym(prog, tm)
-        rets = [b.idx for b in tm.blocks if b.term[0] == "return" and not b.cleanup]
-        e = s.at(rets[0]).local(0) if rets else ("unknown",)
-        n_k += 1
-        res.obligations += 1
-        if e[0] == "agg":
-            names = [n for n, t in prog.adts["tdigest::sketch::TDigestMut"]["variants"][0]["fields"]]
-            vals = dict(zip(names, e[2]))
-            cc = vals.get("centroids_capacity")
-            r = None
-            if cc is not None:
-                r, cex, n, why = formula.equivalent(cc, lambda env: 2 * env["k"] + (30 if env["k"] < 30 else 10), [{"k": k} for k in range(10, 600)])
-            if r:
-                res.discharged += 1
-            elif r is False:
-                res.violate("C18.K", "C18.K|tdigest|capacity", "centroids_capacity is %s, expected 2k + (30 if k < 30 else 10): %s" % (show(cc), cex), tm.id)
-            else:
-                res.undecided += 1
-        else:
-            res.undecided += 1
+        verdict = None
+        if pushes:
+            fp = C.facts_pred(s, pushes[0])
+            comp = [b for b, st in tu.calls() if (st.get("callee") or "").startswith("tdigest::") and not (st.get("callee") or "").endswith("::push")]
+            # a push with a full buffer must have passed the fold: evaluate, for full and non-full buffers, whether a fold call
+            # is on the way (dominating facts of the fold call) 
+            verdict = None
+            for cb in comp:
+                fc = C.facts_pred(s, cb)
+                ok_all, any_eval = True, False
+                for cap in (30, 50, 210):
+                    for ln in (0, 1, cap, 4 * cap - 1, 4 * cap, 4 * cap + 1):
+                        holds, n_ev = fc({"@prog": prog, "self." + capf: cap, "len(self.buffer)": ln, "value": 1.5})
+                        if n_ev == 0:
+                            continue
+                        any_eval = True
+                        if holds != (ln == 4 * cap) and not (holds and ln > 4 * cap):
+                            ok_all = False
+                if any_eval and s._reaches(cb, pushes[0]):
+                    verdict = ok_all if verdict is None else (verdict and ok_all)
+        res.tri(verdict, "C18.K", "C18.K|tdigest|compress", "TDigestMut::update does not fold the buffer exactly when it holds 4 * capacity values before pushing", tu.id)
     res.rule("C18.K", n_k, 6, "capacity rules")
 
     # ---------------- C18.F HLL image size formulas
